@@ -511,8 +511,18 @@ def two_statements(p):
 
 @op("50_statement_after_control", "TOO_MANY_INSTR")
 def stmt_after_control(p):
-    for i in spread_by_kind(p, lines_of(p, "ctrl"), 6):
+    # one site per (keyword, what follows the merged line): a one-line control statement behaves differently in front of
+    # another statement, an else branch, a closing brace of a block and the closing brace of the function
+    seen, sites = set(), []
+    for i in lines_of(p, "ctrl"):
         if p.lines[i].meta.get("kw") in ("if", "while", "else", "else if") and i + 1 < len(p.lines) and p.lines[i + 1].kind == "stmt":
+            nxt = p.lines[i + 2] if i + 2 < len(p.lines) else None
+            key = (p.lines[i].meta.get("kw"), (nxt.meta.get("kw") or nxt.kind) if nxt is not None else "eof")
+            if key not in seen:
+                seen.add(key)
+                sites.append(i)
+    for i in sites:
+        if True:
             q = p.clone()
             body = q.lines.pop(i + 1)
             q.lines[i].parts = q.lines[i].parts + [" "] + body.parts[1:]
